@@ -241,7 +241,7 @@ def parse_annot(path):
     annots = []
     cur = None
     for line in open(path).read().split("\n"):
-        m = re.match(r"^@(before|after|invariant|end)\s*(.*)$", line)
+        m = re.match(r"^@(before|after|invariant|end|header)\s*(.*)$", line)
         if m:
             cur = (m.group(1), m.group(2).strip(), [])
             annots.append(cur)
